@@ -150,12 +150,22 @@ func runC13(c *Ctx, i int, r *rand.Rand) {
 	cfg.Unknown = true
 	cfg.Limit = 1 << 20 // mutated envelopes may announce gigabytes; keep the buffer limit finite
 	m := pick(r, kitchenList)
+	// the "late" not-found: the RPC path names a real method, but the service only speaks REST and the method has no
+	// binding, so the lookup fails after the protocol headers were already taken apart
+	lateUnknown := unknown && chance(r, 25)
+	if lateUnknown {
+		m = kitchenInfo[pick(r, []string{"Unary", "UnaryNSE", "UnaryIdem", "ClientStream", "ServerStream", "Bidi"})]
+		cfg.Protocols, cfg.Codecs = []string{"rest"}, []string{"json"}
+	}
 	form := pick(r, formsFor(m))
 	creq := &ClientReq{Form: form, M: m, HTTP2: form == FGRPC || m.Stream == stBidi || chance(r, 50), DeclLen: chance(r, 50), GetViaQuery: chance(r, 50)}
 	// choose codec/compression the service accepts (pass-through) – or anything for the unknown path
 	creq.Codec = pick(r, cfg.Codecs)
 	if form == FREST {
 		creq.Codec = "json"
+	}
+	if lateUnknown {
+		creq.Codec = pick(r, []string{"proto", "json"})
 	}
 	if len(cfg.Comps) > 0 && chance(r, 50) {
 		creq.Comp = pick(r, cfg.Comps)
@@ -191,7 +201,7 @@ func runC13(c *Ctx, i int, r *rand.Rand) {
 		creq.RawBody = mutateBody(r, built.Raw) // bytes that are not valid in the protocol: still forwarded untouched
 		bodyClass = "mutated"
 	}
-	if unknown {
+	if unknown && !lateUnknown {
 		path, q, _ := strings.Cut(creq.RawTarget, "?")
 		path = pick(r, []string{"/no.such.Service/Method", "/verif.v1.Kitchen/NoSuchMethod", "/v9/nothing/here", "/", "/verif.v1.Kitchen/Unary/extra", path + "x", "/%41%2F%25", "/v1/params"})
 		creq.RawTarget = path
@@ -239,6 +249,10 @@ func runC13(c *Ctx, i int, r *rand.Rand) {
 	kind := "pass-through"
 	if unknown {
 		kind = "unknown"
+	}
+	if lateUnknown {
+		kind = "unknown-late"
+		c.Count("late-not-found")
 	}
 	describe := func() string {
 		return fmt.Sprintf("kind=%s form=%s config: protocols=%v codecs=%v comps=%v\nrequest: %s %s proto=%s CL=%d headers=%s body=%d bytes (%s)\ndownstream calls=%d saw: %s %s proto=%s CL=%d headers=%s body=%d bytes\nhandler wrote: status=%d headers=%s body=%d bytes trailers=%s\nclient got: status=%d headers=%s body=%d bytes trailers=%s",
